@@ -34,12 +34,14 @@ fn c14_chain_table_from_tokens<'t>(text: &'t str, cursor: &mut Cursor) -> (r: Le
     loop
         invariant
             conv.wf(), cursor.tok().len() == 0, fits(*cursor),
-            0 <= k <= r0.len(), cursor.rest() == r0.skip(k), conv.offset == utf8_len(r0.take(k)),
+            0 <= k <= r0.len(), cursor.rest() == r0.skip(k),
+            // the running offset of the table is the byte length of what the lexer has consumed so far
+            conv.offset == utf8_len(r0.take(k)),                                                                        //@C14,C02,C15:table-invariant
             utf8_len(r0) <= 0x7fff_ffff,
-            forall|i: int, j: int| 0 <= i < j < conv.res.start@.len() ==> conv.res.start@[i] < conv.res.start@[j],
-            forall|i: int| 0 <= i < conv.res.start@.len() ==> (#[trigger] conv.res.start@[i]) < conv.offset,
-            forall|i: int| 0 <= i < conv.res.kind@.len() ==> conv.res.kind@[i] != SyntaxKind::EOF && is_token_kind(#[trigger] conv.res.kind@[i]),
-            forall|i: int| 0 <= i < conv.res.error@.len() ==> (#[trigger] conv.res.error@[i]).token < conv.res.kind@.len(),
+            forall|i: int, j: int| 0 <= i < j < conv.res.start@.len() ==> conv.res.start@[i] < conv.res.start@[j],      //@C14,C02:table-invariant
+            forall|i: int| 0 <= i < conv.res.start@.len() ==> (#[trigger] conv.res.start@[i]) < conv.offset,           //@C14,C02:table-invariant
+            forall|i: int| 0 <= i < conv.res.kind@.len() ==> conv.res.kind@[i] != SyntaxKind::EOF && is_token_kind(#[trigger] conv.res.kind@[i]),      //@C01,C02:table-invariant
+            forall|i: int| 0 <= i < conv.res.error@.len() ==> (#[trigger] conv.res.error@[i]).token < conv.res.kind@.len(),      //@C12,C11:table-invariant
         ensures
             conv.wf(), conv.offset == utf8_len(r0),
             forall|i: int, j: int| 0 <= i < j < conv.res.start@.len() ==> conv.res.start@[i] < conv.res.start@[j],
@@ -65,16 +67,18 @@ fn c14_chain_table_from_tokens<'t>(text: &'t str, cursor: &mut Cursor) -> (r: Le
             assert(r0.take(k + n) + r0.skip(k + n) =~= r0);
             lemma_utf8_len_add(r0.take(k + n), r0.skip(k + n));
         }
-        let tt = slice_token_text(text, conv.offset, token.len);
-        conv.extend_token(&token.kind, tt);
+        let ghost k_in = k;
+        proof { k = k + n; }      // (the lexer has consumed n more characters: counted before the copied body, which may `continue`)
+        // ---- the body of the `for` loop of LexedStr::new, copied from /repo on this run (D37)
+@@NEW_LOOP_BODY@@
+        // ---- end of the copied body
         proof {
-            k = k + n;
             assert(conv.res.start@ == starts0.push(off0 as u32));
         }
     }
     let ghost starts1 = conv.res.start@;
     let ghost off1 = conv.offset;
-    let r = conv.finalize_with_eof();
+    let r = @@NEW_TAIL@@;      // the tail expression of LexedStr::new, copied from /repo (D37)
     proof { assert(r.start@ == starts1.push(off1 as u32)); }
     r
 }
